@@ -125,3 +125,17 @@ Proof.
   - assert (f k <= rsum n f) by (apply IH; [lia|intros; apply H; lia]).
     assert (0 <= f n) by (apply H; lia). lra.
 Qed.
+
+(* node sums re-organised as panel sums *)
+Lemma node_to_panel n (A B : nat -> R) :
+  rsum (S n) (fun j => iff0 (j <? n) (A j) + iff0 (0 <? j) (B (j - 1)%nat))
+  = rsum n (fun j => A j + B j).
+Proof.
+  rewrite rsum_plus, (rsum_plus n).
+  f_equal.
+  - rewrite rsum_S. rewrite Nat.ltb_irrefl. unfold iff0 at 2. rewrite Rplus_0_r.
+    apply rsum_ext; intros i Hi. apply Nat.ltb_lt in Hi. rewrite Hi. reflexivity.
+  - rewrite rsum_shift. cbn [Nat.ltb Nat.leb iff0]. rewrite Rplus_0_l.
+    apply rsum_ext; intros i Hi. cbn [Nat.ltb Nat.leb iff0 Nat.sub]. rewrite Nat.sub_0_r. reflexivity.
+Qed.
+
